@@ -60,6 +60,41 @@ fn vec3(r: Result<HomTwoSourceResult<Vec<f64>>, String>) -> Value {
   }
 }
 
+
+fn vis_json(r: Result<HomTwoSourceResult<(Time, f64)>, String>) -> Value {
+  match r {
+    Ok(v) => json!({"ss": [fx(*(v.ss.0 / S)), fx(v.ss.1)], "ii": [fx(*(v.ii.0 / S)), fx(v.ii.1)], "si": [fx(*(v.si.0 / S)), fx(v.si.1)]}),
+    Err(p) => json!({ "panic": p }),
+  }
+}
+
+/// the free functions with a SEPARATE equal object as second source, and with a second source that differs only in
+/// brightness (pump power, d_eff): same normalised two-photon state, same geometry
+fn free_function_obs(rng: &mut Rng, spdc: &SPDC, range: FrequencySpace, taus: &[f64], integrator: Integrator) -> Value {
+  let (a, b) = (spdc.clone(), spdc.clone());
+  let vis_clone = guarded(move || hom_two_source_visibilities(&a, &b, range, range, integrator));
+  let (a, b) = (spdc.clone(), spdc.clone());
+  let td = guarded(move || hom_two_source_time_delays(&a, &b));
+  let kp = [0.25, 3.0, 7.5][rng.below(3)];
+  let kd = [1.0, 0.5, 2.0][rng.below(3)];
+  let mut bright = spdc.clone();
+  bright.pump_average_power = bright.pump_average_power * kp;
+  bright.deff = bright.deff * kd;
+  let (a, b) = (spdc.clone(), bright.clone());
+  let vis_bright = guarded(move || hom_two_source_visibilities(&a, &b, range, range, integrator));
+  let (ja, jb, t) = (spdc.joint_spectrum(integrator), bright.joint_spectrum(integrator), taus.to_vec());
+  let series_bright = guarded(move || hom_two_source_rate_series(&ja, &jb, range, range, t.iter().map(|x| *x * S)));
+  let (a, b) = (bright.clone(), spdc.clone());
+  let vis_bright_rev = guarded(move || hom_two_source_visibilities(&a, &b, range, range, integrator));
+  json!({
+    "vis_clone": vis_json(vis_clone),
+    "time_delays_clone": match td { Ok(v) => json!([fx(*(v.ss / S)), fx(*(v.ii / S)), fx(*(v.si / S))]), Err(p) => json!({"panic": p}) },
+    "power_factor": fx(kp), "deff_factor": fx(kd),
+    "vis_bright": vis_json(vis_bright), "vis_bright_rev": vis_json(vis_bright_rev), "series_bright": vec3(series_bright),
+    "signal_waist_position_m": fx(*(spdc.signal_waist_position / M)), "idler_waist_position_m": fx(*(spdc.idler_waist_position / M)),
+  })
+}
+
 fn axes_for(rng: &mut Rng, spdc: &SPDC, n: usize, mode: usize) -> ((f64, f64, usize), (f64, f64, usize)) {
   let ws = *(spdc.signal.frequency() / (RAD / S));
   let wi = *(spdc.idler.frequency() / (RAD / S));
@@ -110,8 +145,9 @@ fn single_cases(rng: &mut Rng, ncases: usize, max_side: usize) {
     let sp = spdc.joint_spectrum(integrator);
     let arrays = eight(&sp, &sp, ls, li, ls, li);
     let sv = sv_sums(&arrays[0], n);
+    let free = free_function_obs(rng, &spdc, range, &taus, integrator);
     emit(json!({
-      "kind": "single", "setup": name, "config": cfg, "n": n, "mode": mode,
+      "kind": "single", "setup": name, "config": cfg, "n": n, "mode": mode, "free": free,
       "ls": [fx(ls.0), fx(ls.1)], "li": [fx(li.0), fx(li.1)], "taus": fxs(&taus),
       "series": vec3(series),
       "vis": match vis {
